@@ -266,6 +266,33 @@ def r06h(F):
 		out.append(Result('06.h', ok, ('ok:' if ok else 'stale:') + 'bump-candidates-overwritten@' + fn.rsplit('::', 1)[-1], '%s: the candidate claim re-queued for (re)broadcast is always overwritten with the current state of the request (HashMap::insert x%d%s)' % (fn.rsplit('::', 1)[-1], len(ins), '' if not muts else '; other mutators: %s - a kept earlier snapshot would still spend outpoints that a later transaction of the same block took' % muts), len(ins) + len(other), where=F.where(fn)))
 	# (ii) reorganisation boundary (shared with C11.d): an event confirmed in the block that stays the tip is not resurrected
 	out += chainrules.reorg_boundary(F, '06.h')
+	# (iii) the height a claim records as "the block its outpoint confirmed in" is the height of the block being processed (a parameter
+	#       handed down from the chain entry points), never a value read from the HTLC (its expiry): that recorded height is what decides,
+	#       on a reorganisation, whether the claim is still backed by the chain
+	F.calls
+	builds = ['RevokedOutput::build', 'RevokedHTLCOutput::build', 'CounterpartyOfferedHTLCOutput::build', 'CounterpartyReceivedHTLCOutput::build', 'HolderHTLCOutput::build']
+	n = 0
+	for bname in builds:
+		callers = sorted({rec[0] for rec in F.callers_of.get(PKG + bname, []) if rec[0].startswith(MONP)})
+		if not callers:
+			out.append(Result('06.h', False, 'anchor:claim-build:' + bname, 'no caller of package::%s in the monitor' % bname, where=F.where(PKG + bname)))
+		for cn in callers:
+			fu = F.func(cn)
+			ex = Expr(fu)
+			for b in sites_call(fu, [PKG + bname]):
+				n += 1
+				e = ex.of_operand(fu.blocks[b]['t'][2]['args'][-1])
+				core = e
+				while core[0] in ('ref', 'deref', 'cast') or (core[0] == 'agg' and len(core) > 3 and core[2] == 'Some' and len(core[3]) == 1):
+					core = core[1] if core[0] != 'agg' else core[3][0]
+				lv = expr_leaves(e)
+				is_par = (core[0] == 'local' and (core[1] == -1 or 1 <= core[1] <= fu.argc)) or core[0] == 'upvar'
+				bad = [f for f in lv['fields'] if 'expiry' in f or 'cltv' in f]
+				ok = is_par and not bad and not lv['calls']
+				short = cn.replace(MON, '')
+				out.append(Result('06.h', ok, ('ok:' if ok else 'height:') + 'claim-confirmation-height:%s@%s' % (bname.split('::')[0], short), '%s: the confirmation height given to %s is the height parameter of the block being processed (found `%s`)%s' % (short, bname, leaf_key(e)[:60], '' if ok else ' - a claim recorded at any other height (an HTLC expiry) is dropped or kept wrongly when blocks are disconnected'), 1, where=F.where(cn, fu.line_of(b))))
+	if n < 6:
+		out.append(Result('06.h', False, 'floor:claim-builds', 'only %d claim-output builders found in the monitor (expected >= 6)' % n, n))
 	return out
 
 RULES = [
